@@ -56,10 +56,15 @@ def individual(rec):
     import chi as real
     chi_sym = loader.load_shadow()
     pos = lambda n: sp.Symbol(n, positive=True)
-    times = [3.0, 1.0, 2.0]
-    st = sorted(times)
-
     def go():
+        for tv in ([3.0, 1.0, 2.0], [2.0, 1.0, 2.0]):        # the second vector has a replicate measurement time
+            r = go_times(tv)
+            if r[0] != 'discharged':
+                return r
+        return r
+
+    def go_times(times):
+        st = sorted(times)
         n = 0
         def sampler_law(kind, m, th):
             # the error model's own sampler (contract of C06) at the mechanistic output m: the predictive entry must have exactly this law
@@ -121,6 +126,12 @@ def native_individual(seed):
                     if abs(par_of(smp[o, u, k], o, t) - 1.0) > 0.1:
                         return {'what': 'times [3, 1, 2]: entry [output %d, %d-th time, sample %d] = %.6g is not a measurement at the %d-th sorted time %s (expected about %.6g)'
                                 % (o, u, k, smp[o, u, k], u, t, (o + 1) * (1.0 + 0.5 * o + 1000 * t) + 5), 'expected': (o + 1) * (1.0 + 0.5 * o + 1000 * t) + 5, 'observed': float(smp[o, u, k])}
+        # replicate measurements at one time carry independent noise
+        smp = real.PredictiveModel(TT(), [real.GaussianErrorModel(), real.GaussianErrorModel()]).sample([1.0, 1.5, 0.5, 0.5], [2.0, 1.0, 2.0], n_samples=50, seed=int(seed) + 6, return_df=False)
+        for o in range(2):
+            if np.array_equal(smp[o, 1], smp[o, 2]) or abs(np.corrcoef(smp[o, 1], smp[o, 2])[0, 1]) > 0.9:
+                return {'what': 'times [2, 1, 2]: the two measurements of output %d at the replicate time 2 carry the same noise in all 50 samples (correlation %.3f)' % (o, np.corrcoef(smp[o, 1], smp[o, 2])[0, 1]),
+                        'expected': 'independent noise', 'observed': smp[o, 1:3, :5].tolist()}
     except Exception as ex:
         return {'what': 'PredictiveModel.sample raises %r' % (ex,), 'expected': 'samples', 'observed': repr(ex)}
     Toy = c16.native_toy(2, 1)
@@ -352,6 +363,8 @@ def tables(rec):
                     yield (kind, n_samples, tuple(times))
         yield ('pam', 1500, (1.0, 0.5))
         yield ('pam', 4, (2.0,))
+        yield ('pam-zero-middle', 40, (1.0,))
+        yield ('pam-zero-middle', 1, (1.0, 2.0))
 
     def check_table(df, n_samples, times, par=None, tied=True, extra_obs=()):
         """every measurement row: ID in 1..n, ascending times per (ID, observable), value = toy output at *that row's* time and observable
@@ -479,6 +492,26 @@ def tables(rec):
                     msg = check_regimen(df, None, max(times))
                     if msg:
                         return msg
+            return None
+        if kind == 'pam-zero-middle':
+            # weights (1, 0, 2): the second model must never be chosen, the third must be (a count that is filed under the wrong model shows up here)
+            models = []
+            for m in range(3):
+                ds, _ = posterior_ds(pm, 1, 2, ['a'], scale=0.0, offset=1000.0 * (m + 1))
+                models.append(real.PosteriorPredictiveModel(pm, ds))
+            pam = real.PAMPredictiveModel(models, weights=[1.0, 0.0, 2.0])
+            seen = set()
+            for sd in range(6):
+                df = pam.sample(list(times), n_samples=n_samples, individual='a', seed=20 + sd)
+                msg, per_id = check_table(df, n_samples, times, tied=True)
+                if msg:
+                    return msg
+                for v in per_id.values():
+                    seen.add(int(round(v[0] / 1000.0 - 1)))
+            if 1 in seen:
+                return 'weights (1, 0, 2): the model with weight 0 was sampled'
+            if n_samples >= 10 and seen != {0, 2}:
+                return 'weights (1, 0, 2), %d samples x 6 seeds: models chosen %s, expected both the first and the third' % (n_samples, sorted(seen))
             return None
         if kind == 'pam':
             # model m has posterior mass at parameter 1000 (m + 1); unnormalised weights (1, 3, 0): model 3 must never be chosen
